@@ -21,10 +21,13 @@ type Run struct {
 
 // Fail records a property violation (first one wins).
 func (s *Sim) Fail(class, format string, a ...any) {
+	// format before taking the lock: an argument's Error()/String() method may be instrumented
+	// go-zero code that reaches a scheduling point, which needs s.mu itself
+	msg := fmt.Sprintf(format, a...)
 	s.mu.Lock()
 	if s.fail == nil {
-		s.fail = &Failure{Class: class, Msg: fmt.Sprintf(format, a...)}
-		s.tracef("VIOLATION %s: %s", class, s.fail.Msg)
+		s.fail = &Failure{Class: class, Msg: msg}
+		s.tracef("VIOLATION %s: %s", class, msg)
 	}
 	s.mu.Unlock()
 }
@@ -71,8 +74,9 @@ func (s *Sim) Logf(format string, a ...any) {
 	if !s.cfg.Trace {
 		return
 	}
+	msg := fmt.Sprintf(format, a...) // before the lock, see Fail
 	s.mu.Lock()
-	s.tracef(format, a...)
+	s.tracef("%s", msg)
 	s.mu.Unlock()
 }
 
